@@ -193,7 +193,7 @@ impl Envelope {
             Ok(self.clone())
         } else {
             let subject = self.subject().compress()?;
-            Ok(self.replace_subject(subject))
+            Ok(self.with_subject_preserving_structure(subject))
         }
     }
 
@@ -235,9 +235,25 @@ impl Envelope {
     pub fn uncompress_subject(&self) -> Result<Self> {
         if self.subject().is_compressed() {
             let subject = self.subject().uncompress()?;
-            Ok(self.replace_subject(subject))
+            Ok(self.with_subject_preserving_structure(subject))
         } else {
             Ok(self.clone())
+        }
+    }
+}
+
+#[cfg(feature = "compress")]
+impl Envelope {
+    /// Returns this envelope with its subject replaced by `subject`, which must
+    /// have the same digest. Unlike `replace_subject`, the assertions of a
+    /// subject that is itself a node are not merged into this envelope's
+    /// assertions, so the digest of the envelope is unchanged.
+    fn with_subject_preserving_structure(&self, subject: Self) -> Self {
+        match self.case() {
+            EnvelopeCase::Node { assertions, .. } => {
+                Self::new_with_unchecked_assertions(subject, assertions.clone())
+            }
+            _ => subject,
         }
     }
 }
